@@ -224,3 +224,23 @@ if __name__ == "__main__":
         run(int(sys.argv[2]) if len(sys.argv) > 2 else None, int(sys.argv[3]) if len(sys.argv) > 3 else 6)
     elif cmd == "tests":
         tests(int(sys.argv[2]) if len(sys.argv) > 2 else 8)
+
+
+def rerun(jobs=8):
+    """Run the CURRENT checks again on the mutants that survived both the checks (as they were then) and the tests."""
+    muts = {m["id"]: m for m in json.load(open(os.path.join(OUT, "mutants.json")))}
+    ids = json.load(open(os.path.join(OUT, "mutants_survivors.json")))
+    path = os.path.join(OUT, "mutants_rerun.json")
+    done = json.load(open(path)) if os.path.exists(path) else {}
+    todo = [muts[i] for i in ids if i not in done]
+    with ThreadPoolExecutor(max_workers=jobs) as ex:
+        for i, (mid, fired, errs) in enumerate(ex.map(run_one, todo)):
+            done[mid] = {"fired": fired, "errors": errs}
+            if i % 10 == 0:
+                json.dump(done, open(path, "w"))
+                print(i, "/", len(todo), flush=True)
+    json.dump(done, open(path, "w"))
+
+
+if __name__ == "__main__" and sys.argv[1] == "rerun":
+    rerun(int(sys.argv[2]) if len(sys.argv) > 2 else 8)
